@@ -732,14 +732,27 @@ impl FaitAccompli2Sampler {
 
     fn minimize_f(validators: &[ValidatorInfo], k: u64) -> Vec<f64> {
         let total_stake: Stake = validators.iter().map(|v| v.stake).sum();
-        let f: Vec<f64> = validators
+        let ideal: Vec<f64> = validators
             .iter()
-            .map(|v| {
-                (v.stake.inner() as f64 / total_stake.inner() as f64 * k as f64).round() / k as f64
-            })
+            .map(|v| v.stake.inner() as f64 / total_stake.inner() as f64 * k as f64)
             .collect();
-        assert!(f.iter().sum::<f64>() <= 1.0);
-        f
+        let mut seats: Vec<f64> = ideal.iter().map(|x| x.round()).collect();
+        // Rounding to the nearest seat count may hand out more than `k` seats in total.
+        // Take the excess back where rounding up added the most.
+        let mut rounded_up: Vec<usize> = (0..seats.len())
+            .filter(|&i| seats[i] > ideal[i])
+            .collect();
+        rounded_up.sort_by(|&a, &b| (seats[b] - ideal[b]).total_cmp(&(seats[a] - ideal[a])));
+        let mut excess = seats.iter().sum::<f64>() - k as f64;
+        for i in rounded_up {
+            if excess <= 0.0 {
+                break;
+            }
+            seats[i] -= 1.0;
+            excess -= 1.0;
+        }
+        assert!(seats.iter().sum::<f64>() <= k as f64);
+        seats.into_iter().map(|s| s / k as f64).collect()
     }
 }
 
